@@ -4,6 +4,12 @@ R1 decides writer/reader agreement of the two converters on regular languages (a
 lengths 1..4 as slots) and confirms the plumbing of components on a finite domain by interpreting the two
 functions' ASTs; R2 interprets detect_change_type's AST over an exhaustive small domain of version pairs.
 The regular-language toolkit and the abstract string interpreter are imported from props/c32.py.
+
+Model of `packaging.Version` (both interpreters): `release` is the tuple of parsed components; `major`/`minor`/`micro` are
+release[0..2] with an absent component reading as the constant 0 (packaging's padding); `base_version` is the dotted release;
+`pre` is None or (a|b|rc, n).  The round trip is judged on the normalised *string* (hence on the release tuple, its length
+included), not under Version equality (where 1.2 == 1.2.0): a writer that pads a 1- or 2-component release to three
+components, or drops the 4th, is reported for that release length, for final and a/b/rc versions alike.
 """
 
 from __future__ import annotations
@@ -25,12 +31,12 @@ from .c32 import (
 
 EXPLANATION = (
     "R1 (converter agreement). Symbolic part: `pep440_to_semver` is interpreted abstractly with `Version(..)` modelled as release = n natural "
-    "numbers (n = 1..4 is the slot) and pre = none or (a|b|rc, natural); the set of strings it can return is a regular language (all digit "
+    "numbers (n = 1..4 is the slot; major/minor/micro = release[0..2], the constant 0 when absent, as packaging defines them) and pre = none or (a|b|rc, natural); the set of strings it can return is a regular language (all digit "
     "strings at once). For each n: the pre-release language must be included in the language of the regex `semver_to_pep440` matches with "
     "(regex AST), the label guard must not raise, and what `semver_to_pep440` then returns (abstract interpretation, capture groups computed by "
     "language quotients) must lie in the canonical PEP 440 form N(.N){n-1}(a|b|rc)N; final releases must come back as N(.N){n-1}. The other "
     "direction starts from canonical semver N.N.N[-(a|b|rc).N]. Finite part: both functions' ASTs are evaluated (no repo code runs) on all "
-    "releases of length 1..4 over {0,7,10} x {final,a0,a4,b1,rc2,rc10} and the round trip must return the normalized original string. "
+    "releases of length 1..4 over {0,7,10} x {final,a0,a4,b1,rc2,rc10} and the round trip must return the normalized original string (string comparison, so a release padded or truncated to three components is a failure even where Version equality would hide it). "
     "R2 (classification): detect_change_type's AST is evaluated on every ordered pair of versions with release length 1..4 over {0,1} and "
     "pre in {final, rc1, rc2} (8100 pairs, exhaustive for that domain): result 'none' iff the new version is not greater under the PEP 440 "
     "order, else the name of the first of the three leading components that differs. "
@@ -38,7 +44,7 @@ EXPLANATION = (
     "ordering), epochs/post/dev/local segments (outside the quantifier), the classification when only a 4th component or only the pre-release "
     "grew (the statement does not define it; reported as an observation); is_rc_version (not part of the statement, planned R3 dropped)."
 )
-TRUSTED = ["CPython ast, re (stdlib engine on the repo's pattern string), re._parser", "packaging.Version: release tuple, pre in {a,b,rc}, PEP 440 ordering"]
+TRUSTED = ["CPython ast, re (stdlib engine on the repo's pattern string), re._parser", "packaging.Version: release tuple, major/minor/micro = release[0..2] padded with 0, base_version, pre in {a,b,rc}, PEP 440 ordering"]
 LEVEL_NOTE = "language inclusion is exact for all digit strings; component plumbing and classification are bounded-exhaustive"
 TECHNIQUE = "writer-template vs reader-regex language inclusion; AST interpretation over finite domains"
 
@@ -51,6 +57,21 @@ LENGTHS = (1, 2, 3, 4)
 
 
 # ------------------------------------------------------------------------------ symbolic part
+class _SI(SInterp):
+    """SInterp that does not take `obj.attr[...]` for a string operation when the attribute holds a sequence
+    (`v.release[:3]`, `v.release[1:]`): the slice is then taken on the modelled tuple."""
+
+    def _is_stringy(self, e, st):
+        if isinstance(e, ast.Attribute):
+            try:
+                vs = self.eval(e, st)
+            except Unsupported:
+                vs = []
+            if vs and all(isinstance(v, (tuple, list, ASeq)) for v, _s in vs):
+                return False
+        return super()._is_stringy(e, st)
+
+
 class _Sym:
     def __init__(self, funcs: dict[str, ast.AST], consts: dict[str, ast.AST]):
         for f in (P2S, S2P):
@@ -115,7 +136,11 @@ class _Sym:
             if n is None:
                 raise Unsupported("Version() called in a run that did not configure a release length")
             p = (AStr(sym.labels()), AInt()) if pre else None
-            return [(AObj("Version", release=ASeq(AInt(), n, n), pre=p, epoch=0, post=None, dev=None, local=None), st)]
+            # packaging semantics: major/minor/micro are release[0..2], a missing component reads as the constant 0
+            comps = [AInt() if i < n else 0 for i in range(3)]
+            return [(AObj("Version", release=tuple(AInt() for _ in range(n)), pre=p, epoch=0, post=None, dev=None, local=None,
+                          major=comps[0], minor=comps[1], micro=comps[2], is_prerelease=bool(pre), is_postrelease=False, is_devrelease=False,
+                          base_version=AStr(sym.release(n))), st)]
 
         def h_match(ip, node, args, kw, st):
             rx, s = args[0], args[1] if len(args) > 1 else UNKNOWN
@@ -166,7 +191,7 @@ class _Sym:
     def run(self, fn: ast.AST, arg: object, n: int | None, pre: bool | None) -> tuple[DFA, list[str]]:
         """(language of returned strings, names of exceptions that can be raised)"""
         raises: list = []
-        ip = SInterp(self.A, {}, self.consts, self._hooks(n, pre, raises))
+        ip = _SI(self.A, {}, self.consts, self._hooks(n, pre, raises))
         params = [a.arg for a in fn.args.args]
         try:
             rets = ip.call_function(fn, {params[0]: arg})
@@ -198,7 +223,10 @@ def _model_version(s: str) -> Record:
         raise Raised("InvalidVersion", repr(s))
     rel = tuple(int(x) for x in m.group(1).split("."))
     pre = (m.group(2), int(m.group(3))) if m.group(2) else None
-    return _V("Version", release=rel, pre=pre, epoch=0, post=None, dev=None, local=None, major=rel[0])
+    pad = rel + (0, 0, 0)  # packaging: major/minor/micro = release[0..2], 0 when the component is absent
+    return _V("Version", release=rel, pre=pre, epoch=0, post=None, dev=None, local=None, major=pad[0], minor=pad[1], micro=pad[2],
+              is_prerelease=pre is not None, is_postrelease=False, is_devrelease=False, base_version=".".join(map(str, rel)),
+              public=m.group(0))
 
 
 class _V(Record):
@@ -269,10 +297,16 @@ def finite_roundtrips(funcs: dict[str, ast.AST], consts: dict[str, ast.AST]) -> 
                 cases += 1
                 sem = _call(ip, p2s, orig)
                 back = _call(ip, s2p, sem) if isinstance(sem, str) and not sem.startswith("<raises") else sem
-                if back != orig and len(fail_p[n]) < 3:
-                    fail_p[n].append(f"{orig} -> {sem} -> {back}")
-                elif back != orig:
-                    fail_p[n].append("")
+                if back != orig:
+                    # compared on the normalised string, i.e. on the release tuple itself and not under Version equality (1.2 == 1.2.0)
+                    mb = _CANON.match(back) if isinstance(back, str) else None
+                    nb = len(mb.group(1).split(".")) if mb else None
+                    why = "" if nb in (None, n) else f" [release {'padded' if nb > n else 'truncated'} from {n} to {nb} component(s)]"
+                    txt = f"{orig} -> {sem} -> {back}{why}"
+                    if 0 in rel:
+                        fail_p[n].append(txt)
+                    else:  # telling examples (no zero component) first
+                        fail_p[n].insert(0, txt)
     fail_s: list[str] = []
     for rel in itertools.product(vals, repeat=3):
         for pre in pres:
@@ -363,7 +397,7 @@ def eval_rules(funcs: dict[str, ast.AST], consts: dict[str, ast.AST], vfuncs: di
             problems.append(f"final release comes back as {sym.show(off)}" + (f", raises {rexc2}" if rexc2 else ""))
         ff = [x for x in fail_p[n]]
         if ff:
-            problems.append(f"finite round trip fails for {len(ff)} of the evaluated versions, e.g. {'; '.join(x for x in ff[:3] if x)}")
+            problems.append(f"finite round trip fails for {len(ff)} of the evaluated versions, e.g. {'; '.join(ff[:3])}")
         yield ("ob", "C34.R1", f"pep440->semver->pep440:release-len={n}", f"PEP 440 versions with {n} release component(s) survive the round trip through semver",
                not problems, sym.p2s, "; ".join(problems))
     # ---------------- semver -> pep440 -> semver
@@ -442,25 +476,34 @@ def run(chk) -> None:
 
 _CH = "src/dev_cli/changesets.py"
 _VE = "src/dev_cli/versioning.py"
-_RX = '_SEMVER_PRERELEASE_RE = re.compile(r"^(\\d+\\.\\d+\\.\\d+)-([a-zA-Z]+)\\.(\\d+)$")'
+_RX = '_SEMVER_PRERELEASE_RE = re.compile(r"^(\\d+(?:\\.\\d+)*)-([a-zA-Z]+)\\.(\\d+)$")'
+_REL = "(\\d+(?:\\.\\d+)*)"
+_JOIN = 'base = ".".join(str(x) for x in v.release)'
 _MAJ = '    if current_release[0] > previous_release[0]:\n        return "major"\n'
 _MIN = '    if current_release[1] > previous_release[1]:\n        return "minor"\n'
 TWINS: list[Twin] = [
     # ---- R1 breaking
-    Twin("regex wants two components", _CH, _RX, _RX.replace("(\\d+\\.\\d+\\.\\d+)", "(\\d+\\.\\d+)"), "C34.R1"),
-    Twin("regex rejects a leading zero component", _CH, _RX, _RX.replace("(\\d+\\.\\d+\\.\\d+)", "([1-9]\\d*\\.\\d+\\.\\d+)"), "C34.R1"),
+    Twin("regex wants two components", _CH, _RX, _RX.replace(_REL, "(\\d+\\.\\d+)"), "C34.R1"),
+    Twin("regex rejects a leading zero component", _CH, _RX, _RX.replace(_REL, "([1-9]\\d*(?:\\.\\d+)*)"), "C34.R1"),
     Twin("writer omits the dot before the number", _CH, 'return f"{base}-{label}.{num}"', 'return f"{base}-{label}{num}"', "C34.R1"),
     Twin("reader emits a separator", _CH, 'return f"{base}{label}{num}"', 'return f"{base}.{label}{num}"', "C34.R1"),
     Twin("groups unpacked in the wrong order", _CH, "base, label, num = match.groups()", "base, num, label = match.groups()", "C34.R1"),
     Twin("label set lost rc", _CH, '_PEP440_LABELS = {"a", "b", "rc"}', '_PEP440_LABELS = {"a", "b", "c"}', "C34.R1"),
     Twin("reader pads the number", _CH, 'return f"{base}{label}{num}"', 'return f"{base}{label}0{num}"', "C34.R1"),
+    Twin("base from major/minor/micro: release padded / truncated to three components", _CH, _JOIN, 'base = f"{v.major}.{v.minor}.{v.micro}"', "C34.R1"),
+    Twin("base joined over (major, minor, micro)", _CH, _JOIN, 'base = ".".join(str(x) for x in (v.major, v.minor, v.micro))', "C34.R1"),
+    Twin("release truncated to three components", _CH, _JOIN, 'base = ".".join(str(x) for x in v.release[:3])', "C34.R1"),
+    Twin("base is major.minor only", _CH, _JOIN, 'base = f"{v.major}.{v.minor}"', "C34.R1"),
+    Twin("reader regex accepts exactly three components", _CH, _RX, _RX.replace(_REL, "(\\d+\\.\\d+\\.\\d+)"), "C34.R1"),
     # ---- R1 benign
-    Twin("benign: repaired regex", _CH, _RX, _RX.replace("(\\d+\\.\\d+\\.\\d+)", "(\\d+(?:\\.\\d+)*)"), None),
+    Twin("benign: digit class spelled out", _CH, _RX, _RX.replace(_REL, "([0-9]+(?:\\.[0-9]+)*)"), None),
     Twin("benign: lowercase label class", _CH, _RX, _RX.replace("[a-zA-Z]+", "[a-z]+"), None),
     Twin("benign: group() accessors", _CH, "    base, label, num = match.groups()", "    base = match.group(1)\n    label = match.group(2)\n    num = match.group(3)", None),
     Twin("benign: concatenation", _CH, 'return f"{base}-{label}.{num}"', 'return base + "-" + label + "." + str(num)', None),
     Twin("benign: map(str, release)", _CH, '".".join(str(x) for x in v.release)', '".".join(map(str, v.release))', None),
     Twin("benign: truthiness of pre", _CH, "    if v.pre is None:\n        return base", "    if not v.pre:\n        return base", None),
+    Twin("benign: base_version (epoch-free release string)", _CH, _JOIN, "base = v.base_version", None),
+    Twin("benign: major used for the first component only", _CH, _JOIN, 'base = ".".join(str(x) for x in (v.major,) + v.release[1:])', None),
     # ---- R2 breaking
     Twin("equal versions are a change", _VE, "    if current <= previous:", "    if current < previous:", "C34.R2"),
     Twin("minor test not strict", _VE, "current_release[1] > previous_release[1]", "current_release[1] >= previous_release[1]", "C34.R2"),
